@@ -464,6 +464,45 @@ func c12one(x *X, reg *pubRegime, loc *time.Location, cs c12case, step int, stal
 			doc["lines"] = append([]any{first}, doc["lines"].([]any)...)
 		}
 	}
+	if !stale && op.I != 11 && op.I != 5 && !rate.Exempt {
+		// lines of the same rate key under other qualifications first (the plain one, and the
+		// values other extensions select): the tested line comes last and must still get the
+		// value its own extensions select
+		var others []any
+		seenQ := map[string]bool{fmt.Sprint(cext): true}
+		addOther := func(e map[string]string) {
+			if seenQ[fmt.Sprint(e)] || len(others) >= 3 {
+				return
+			}
+			seenQ[fmt.Sprint(e)] = true
+			oc := map[string]any{"cat": op.S, "rate": op.S2}
+			if len(e) > 0 {
+				oc["ext"] = e
+			}
+			if cc, ok := combo["country"]; ok {
+				oc["country"] = cc
+			}
+			others = append(others, map[string]any{"quantity": "1", "item": map[string]any{"name": "other", "price": "50.00"}, "taxes": []any{oc}})
+		}
+		hasExt := false
+		for _, v := range rate.Values {
+			if len(v.Ext) > 0 && len(v.Tags) == 0 {
+				hasExt = true
+			}
+		}
+		if hasExt {
+			addOther(map[string]string{})
+			for _, v := range rate.Values {
+				if len(v.Ext) > 0 && len(v.Tags) == 0 {
+					addOther(v.Ext)
+				}
+			}
+			if len(others) > 0 {
+				doc["lines"] = append(others, doc["lines"].([]any)...)
+				x.Probe("same-key-other-qualifications-first")
+			}
+		}
+	}
 	db, _ := json.Marshal(doc)
 	x.Entropy(op.ID)
 	var env *gobl.Envelope
